@@ -218,6 +218,18 @@ def do_ob(prop, module, ob, pres, tier):
                 r["vals"] = vals
                 r["replay_detail"] = rep["exc"] or "oracle returned False"
                 break
+            if getattr(ob, "fallback", ""):
+                fb = concrete(module, [{"kind": "eval", "params": [], "pre": [], "body": "H._fallback_box(%s)" % ob.fallback, "args": []}],
+                              timeout=1800)[0]
+                found = fb.get("found")
+                if found:
+                    rep2 = concrete(module, [{"kind": "eval", "params": names, "pre": pres, "body": ob.body, "args": found}])[0]
+                    res["replays"] += 1
+                    if rep2["pre_ok"] and (rep2["exc"] or rep2["result"] is False):
+                        r = {"status": "cex", "reproduced": True, "vals": found, "msg": "solver path failed through state left by an earlier "
+                             "path; self-contained arguments found by the fresh-interpreter search", "args": (found, {}),
+                             "replay_detail": rep2["exc"] or "oracle returned False"}
+                        break
             # engine-spurious: verified concretely just now; exclude this point and retry
             res["spurious"] += 1
             extra.append("(%s) != %r" % (", ".join(names) + ("," if len(names) == 1 else ""), tuple(vals)))
